@@ -15,9 +15,11 @@ package capnp
 //@ // a segment objects can be allocated in: handle invariant plus word alignment
 //@ func wfSegW(s *Segment) bool { return segOK(s) && len(s.data)&7 == 0 && wfMsg(s.msg) }
 //@ // representation invariant of Message: every registered Segment object belongs to the message
-//@ // and is registered under its own id
+//@ // and is registered under its own id; once the segment map exists, the embedded first segment (if in
+//@ // use) is the object registered as segment 0 - a second Segment object for id 0 would carry a stale length
 //@ func wfMsg(m *Message) bool {
 //@ 	return m != nil && m.Arena != nil && implies(m.firstSeg.msg != nil, m.firstSeg.msg == m && m.firstSeg.id == 0) &&
+//@ 		implies(m.segs != nil && m.firstSeg.msg != nil, m.segs[0] == &m.firstSeg) &&
 //@ 		forall(0, 1<<32, func(i int) bool {
 //@ 			return implies(m.segs != nil && m.segs[SegmentID(i)] != nil, m.segs[SegmentID(i)].msg == m && m.segs[SegmentID(i)].id == SegmentID(i))
 //@ 		})
